@@ -3,7 +3,7 @@ From Coq Require Import QArith Reals.
 From Coq Require Import ZArith List Bool.
 From Coq Require Import Floats.PrimFloat.
 From PAFCommon Require Import PyFloat Lists.
-From PAFC17 Require Import Model Proofs ProofsT ProofsR Witness.
+From PAFC17 Require Import Model Proofs ProofsT ProofsR Witness Quantile.
 Import ListNotations.
 Open Scope nat_scope.
 
@@ -394,8 +394,50 @@ Theorem C17_transform_density : forall (ndtri npdf : R -> R) (p : R -> R) (stack
             Model.factor (RopsP ndtri npdf) p stack x = (p (fst (transform_det (RopsP ndtri npdf) stack x)) + ln D)%R.
 Proof. exact model_factor_change_of_variables. Qed.
 
+(* ===== the quantile function and the CDF are an inverse pair on every route (scalar branch / ndarray fallback branch of
+   NormalMessage.value_for, vectorised and per-element calls, transformed messages); erf / erfinv / ndtri are library
+   functions: Section hypotheses `erf (erfinv y) = y` on (-1, 1) and `ndtri (Phi y) = y` ===== *)
+Theorem C17_cdf_value_for : forall (erf erfinv : R -> R), (forall y, (-1 < y < 1)%R -> erf (erfinv y) = y) ->
+  forall mu sg u : R, (0 < sg)%R -> (0 < u < 1)%R -> ncdf erf mu sg (vfor erfinv arg_code mu sg u) = u.
+Proof. exact cdf_value_for. Qed.
+
+(* a branch inverts the cdf exactly when its erfinv argument is 2u - 1 *)
+Theorem C17_quantile_branch_sound_iff : forall (erf erfinv : R -> R), (forall y, (-1 < y < 1)%R -> erf (erfinv y) = y) ->
+  forall (arg : R -> R) (mu sg : R), (0 < sg)%R -> (forall u, (0 < u < 1)%R -> (-1 < arg u < 1)%R) ->
+  ((forall u, (0 < u < 1)%R -> ncdf erf mu sg (vfor erfinv arg mu sg u) = u) <-> (forall u, (0 < u < 1)%R -> arg u = (2 * u - 1)%R)).
+Proof. exact branch_sound_iff. Qed.
+
+(* whatever representation of the unit value selects the branch, the answer is the same quantile *)
+Theorem C17_quantile_route_independent : forall (erf erfinv : R -> R), (forall y, (-1 < y < 1)%R -> erf (erfinv y) = y) ->
+  forall (a_s a_f : R -> R) (mu sg u : R) (fallback : bool), (0 < sg)%R -> (0 < u < 1)%R ->
+  a_s u = (2 * u - 1)%R -> a_f u = (2 * u - 1)%R ->
+  ncdf erf mu sg (vfor_route erfinv a_s a_f fallback mu sg u) = u /\
+  vfor_route erfinv a_s a_f fallback mu sg u = vfor erfinv arg_code mu sg u.
+Proof. exact every_route_inverts. Qed.
+
+Theorem C17_quantile_vectorised : forall (erf erfinv : R -> R), (forall y, (-1 < y < 1)%R -> erf (erfinv y) = y) ->
+  forall (mus sgs us : list R) (i : nat), (i < length mus)%nat -> length sgs = length mus -> length us = length mus ->
+  (0 < nth i sgs 0)%R -> (0 < nth i us 0 < 1)%R ->
+  ncdf erf (nth i mus 0%R) (nth i sgs 0%R) (nth i (vfor_vec erfinv arg_code mus sgs us) 0%R) = nth i us 0%R.
+Proof. exact vec_route_inverts. Qed.
+
+(* the mirrored fallback branch (seeded mutation C17r7): the full statement is refuted on the array route *)
+Theorem C17_quantile_mirrored_fallback_refuted : forall (erf erfinv : R -> R), (forall y, (-1 < y < 1)%R -> erf (erfinv y) = y) ->
+  exists u, (0 < u < 1)%R /\ ncdf erf 0 1 (vfor_route erfinv arg_simplified arg_mirrored true 0 1 u) <> u.
+Proof. exact mirrored_route_refuted. Qed.
+
+(* transformed messages: cdf(x) = base.cdf(T x), value_for(u) = T^-1(base.value_for(u)), T the model's _transform_det *)
+Theorem C17_transformed_cdf_value_for : forall (erf erfinv : R -> R), (forall y, (-1 < y < 1)%R -> erf (erfinv y) = y) ->
+  forall (ndtri npdf : R -> R), (forall y, ndtri (Phi erf y) = y) ->
+  forall (stack : list (transform R)) (mu sg u : R) (fallback : bool), (0 < sg)%R -> (0 < u < 1)%R ->
+  inv_ok erf stack (vfor erfinv arg_code mu sg u) ->
+  tcdf erf ndtri npdf stack mu sg (tinv erf stack (vfor_route erfinv arg_code arg_code fallback mu sg u)) = u.
+Proof. exact transformed_cdf_value_for. Qed.
+
 Print Assumptions C17_div_mul.
 Print Assumptions C17_wrapper_preserved.
 Print Assumptions C17_transformed_zeros_legacy_refuted.
 Print Assumptions C17_normal_div_mul.
 Print Assumptions C17_transform_density.
+Print Assumptions C17_transformed_cdf_value_for.
+Print Assumptions C17_quantile_route_independent.
